@@ -128,7 +128,7 @@ def transformations(rng, ds):
 
 
 def _run(ctx, e2e):
-    n = ctx.pick(24, 1500)
+    n = ctx.pick(24, 5000)
     for i in range(n):
         case_id = f"ds{i}"
         if not ctx.mine(i, case_id):
